@@ -472,18 +472,31 @@ fn exif_new_contract() {
 /// done). The writer is built exactly as ensure_brotli builds it (the registry raises the unwinding bound of the one
 /// loop that fills its 1080-entry Huffman table). The parser has left the box, so the next event is the start of the
 /// next box. Contract (C01): handle_event returns Ok or Err. EXPECTED TO FAIL on the unrepaired tree at aux_box.rs:59.
+/// Assumed contract of a FAILING box finalisation (AuxBoxReader::finalize when the Brotli decompressor reports an error in
+/// flush/close -- the external decompressor cannot be run by CBMC): returns Err and leaves the reader as it is.
+fn stub_reader_finalize_fails(_r: &mut AuxBoxReader) -> crate::Result<()> {
+    Err(std::io::Error::from(std::io::ErrorKind::InvalidData).into())
+}
+
 #[kani::proof]
 #[kani::unwind(8)]
 #[kani::stub(Jbrd::feed_bytes, stub_jbrd_feed_bytes)]
+#[kani::stub(AuxBoxReader::finalize, stub_reader_finalize_fails)]
 fn refeed_after_failed_finalisation() {
+    // a box is being read; which kind does not matter for AuxBoxList::finalize: the failing finalisation is stubbed. A Raw
+    // reader is used because dropping a Brotli writer would run the external decompressor's Drop inside CBMC (> 15 min).
+    // On the unrepaired tree the stale Raw reader then meets ensure_brotli()'s panic!() when a brob box follows (the mirror
+    // image of the natively reproduced history, where a stale Brotli reader meets ensure_raw()).
     let mut list = AuxBoxList::new();
     list.current_box_ty = Some(ContainerBoxType::EXIF);
-    list.current_box = AuxBoxReader {
-        data: DataKind::Brotli(Box::new(DecompressorWriter::new(Vec::<u8>::new(), 4096))),
-        done: false,
-    };
-    // JxlImage::feed_bytes returned the finalisation error; the caller feeds the rest of the file
-    let r = ok(list.handle_event(ParseEvent::AuxBoxStart { ty: ContainerBoxType::XML, brotli_compressed: false, last_box: kani::any() }));
-    kani::cover!(r || !r);
+    list.current_box = AuxBoxReader { data: DataKind::Raw(Vec::new()), done: false };
+    // ... its end arrives and the finalisation fails (real AuxBoxList::handle_event / finalize, failing reader)
+    let r0 = ok(list.handle_event(ParseEvent::AuxBoxEnd(ContainerBoxType::EXIF)));
+    assert!(!r0, "[C01,C10] a failed finalisation is reported as an error");
+    // JxlImage::feed_bytes returned that error; the caller feeds the rest of the file: the next box starts
+    let brotli: bool = kani::any();
+    let r = ok(list.handle_event(ParseEvent::AuxBoxStart { ty: ContainerBoxType::XML, brotli_compressed: brotli, last_box: kani::any() }));
+    kani::cover!(r && !brotli);
+    kani::cover!(r && brotli);
     std::mem::forget(list);
 }
